@@ -206,11 +206,24 @@ sexp sexp_finalize_fileno (sexp ctx, sexp self, sexp_sint_t n, sexp fileno) {
   return SEXP_VOID;
 }
 
+#if SEXP_USE_GREEN_THREADS
+int sexp_maybe_block_output_port (sexp ctx, sexp out);
+#endif
+
 sexp sexp_finalize_port (sexp ctx, sexp self, sexp_sint_t n, sexp port) {
   sexp res = SEXP_VOID;
   if (sexp_port_openp(port)) {
     sexp_port_openp(port) = 0;
-    if (sexp_oportp(port)) sexp_flush_forced(ctx, port);
+    if (sexp_oportp(port)) {
+      /* nothing will retry this flush, so write in blocking mode */
+#if SEXP_USE_GREEN_THREADS
+      sexp_maybe_block_output_port(ctx, port);
+#endif
+      sexp_flush_forced(ctx, port);
+#if SEXP_USE_GREEN_THREADS
+      sexp_maybe_unblock_port(ctx, port);
+#endif
+    }
 #ifndef PLAN9
     if (sexp_filenop(sexp_port_fd(port))
         && sexp_fileno_openp(sexp_port_fd(port))) {
@@ -2098,7 +2111,8 @@ int sexp_maybe_block_port (sexp ctx, sexp in, int forcep) {
 }
 
 int sexp_maybe_block_output_port (sexp ctx, sexp out) {
-  if (sexp_port_stream(out) && sexp_port_fileno(out) >= 0) {
+  if ((sexp_port_stream(out) || sexp_filenop(sexp_port_fd(out)))
+      && sexp_port_fileno(out) >= 0) {
     if (sexp_port_flags(out) == SEXP_PORT_UNKNOWN_FLAGS)
       sexp_port_flags(out) = fcntl(sexp_port_fileno(out), F_GETFL);
     if (sexp_port_flags(out) & O_NONBLOCK) {
@@ -2581,7 +2595,16 @@ int sexp_write_utf8_char (sexp ctx, int c, sexp out) {
 sexp sexp_flush_output_op (sexp ctx, sexp self, sexp_sint_t n, sexp out) {
   int res;
   sexp_assert_type(ctx, sexp_oportp, SEXP_OPORT, out);
+#if SEXP_USE_GREEN_THREADS
+  /* a descriptor port keeps what a short or would-block write left over */
+  /* and reports success, so flush it in blocking mode */
+  if (!sexp_port_stream(out))
+    sexp_maybe_block_output_port(ctx, out);
+#endif
   res = sexp_flush_forced(ctx, out);
+#if SEXP_USE_GREEN_THREADS
+  sexp_maybe_unblock_port(ctx, out);
+#endif
   if (res == EOF) {
 #if SEXP_USE_GREEN_THREADS
     if (sexp_port_stream(out) && ferror(sexp_port_stream(out)) && (errno == EAGAIN))
